@@ -41,6 +41,9 @@ CHECKS.update({
         text="Replica.tla checks level contiguity on retention-free histories; on the real code every compaction/snapshot output is decoded and the TLA+ judge recomposes its level-0 inputs (latest page wins, trimmed to the final size, newest input's timestamp) and requires equality, contiguity per level, and that every listed TXID restores to the recorded committed state (plan independence)."),
     "C07": dict(technique=REPL_TECH, design="7/C07", note=CORE_NOTE + " EnforceRetentionByTXID is exercised with floors covered by a snapshot (the only floors the daemon passes).",
         text="Replica.tla checks Restorable, SnapshotKept, L0Run for every retention threshold (RetentionEnabled true/false); on the real code cut-offs are placed around the observed file times and after every pass the TLA+ judge requires the latest state restorable to a committed state not older than the last acknowledgement, a snapshot kept, level 0 one contiguous run."),
+    "C12": dict(technique="TLA+ spec Concurrency.tla (executor semaphore, checkpoint RW-lock, read transaction, lifecycle): TLC exhaustive; TLC interleavings + seeded orders executed by real goroutines parked at verif hooks (exact replay) on one Store; TLC judge CoreObs.tla (C12_* + C01/C02/C06); Go race detector for the data-race clause",
+        design="7/C12", note=CORE_NOTE + " Interleaving granularity = verif hooks; blocked goroutines stay blocked (nothing simulated). The data-race clause is decided by the race detector, not TLA+ (DESIGN 10).",
+        text="Concurrency.tla checks LocksFree, NoDeadlock and NoLeakAfterClose over all interleavings of the daemon operations at hook granularity; those interleavings and seeded ones over the full operation set (sync, upload, checkpoint, snapshot, compaction, retention, status, register/unregister, enable/disable, close, live writers) are replayed exactly with real goroutines; a watchdog decides 'every call returns'; the judge requires no read lock / handle after close, one instance per path, and C01/C02/snapshot=position afterwards; the same replays run under -race."),
     "C19": dict(technique="TLA+ spec RestoreV3.tla/RestoreV3Plan.tla (transcription of the 0.3.x restore planning + declarative statement): TLC enumerates all small layouts; same layouts materialised as real lz4 snapshot/WAL-segment files from real SQLite histories and restored by the real code; TLC judge RestoreV3Obs.tla",
         design="7/C19", note="Layouts <= 2 generations, <= 2 snapshots, <= 3 indices, <= 3 segments per index, one segment removed, all timestamps; file replica client. " + TB,
         text="The transcription of findBestSnapshotV3 / filterWALSegmentsV3 / the contiguity walk / format arbitration is checked against the declarative statement on every small layout; each layout is built physically from a real history and restored with the real Replica.Restore; the TLA+ judge requires the real outcome to satisfy the declarative statement (verdict) and to equal the transcription (binding)."),
